@@ -382,7 +382,10 @@ def run_ext_case(case):
 # -- generators -----------------------------------------------------------------------------------------
 
 _atoms = st.sampled_from(['user', 'a.b', 'x+tag', 'o\'brien', 'v450', 'v550', 'UPPER', '!#$%&*', 'a_b-c'])
-_quoted = st.sampled_from(['"a b"', '"a@b"', '"<x>"', '"q\\"uote"', '"back\\\\slash"', '"v550 quoted"', '"q\\"<>"', '">"', '" "'])
+_qelem = st.sampled_from(['a', 'b', 'Z', ' ', '<', '>', '@', ',', ';', ':', '.', '\\"', '\\\\', '\\a', '\\ ', 'v550'])
+_quoted_built = st.lists(_qelem, min_size=1, max_size=5).map(lambda l: '"' + ''.join(l) + '"')
+_quoted_fixed = st.sampled_from(['"a b"', '"a@b"', '"<x>"', '"q\\"uote"', '"back\\\\slash"', '"v550 quoted"', '"q\\"<>"', '">"', '" "'])
+_quoted = st.one_of(_quoted_fixed, _quoted_built, _quoted_built)
 _utf8 = st.sampled_from(['üser', 'дмитрий', '用户', '"ü b"'])
 _doms = st.sampled_from(['example.com', 'sub.example.org', 'EXAMPLE.net', 'xn--bcher-kva.example', '[192.0.2.1]'])
 _udoms = st.sampled_from(['bücher.example', 'пример.рф'])
@@ -400,6 +403,10 @@ def address(draw, utf8):
 def envelope_spec(draw, utf8, eightbit_ok):
     sender = draw(st.one_of(st.just(''), address(utf8)))
     rcpts = draw(st.lists(address(utf8), min_size=1, max_size=5))
+    if draw(st.integers(0, 5)) == 0:
+        # every recipient refused, with mixed classes (the transaction stays open on the server until it is reset)
+        rcpts = draw(st.permutations(['v450@example.com', 'v550@example.org'] + draw(st.lists(st.sampled_from(
+            ['v550@x.example', 'v450@y.example']), max_size=1))))
     block, eol, body, fields = draw(c20.structured_case())
     block = re.sub(br'\r?\n', b'\r\n', block) + b'\r\n'
     if not draw(st.integers(0, 3)):
